@@ -212,7 +212,8 @@ pub fn alphabet_over(times: &[f64], more_values: bool) -> Vec<Op> {
         }
         let mut dv = vec![(1.0, true), (2.0, true)];
         let mut ev = vec![(false, 1.0), (true, 1.0)];
-        let mut sv = vec![(SampleBank::Normal, 100, 0), (SampleBank::Soft, 50, 0)];
+        // bank None is a value of its own in the collection API (only the line parser maps it to Normal)
+        let mut sv = vec![(SampleBank::Normal, 100, 0), (SampleBank::Soft, 50, 0), (SampleBank::None, 100, 0)];
         if more_values {
             dv.push((1.0, false));
             ev.push((false, 2.0));
